@@ -790,6 +790,10 @@ pub fn generate(prop: &str, seed: u64, idx: u64, tier: Tier) -> Plan {
             p.latency_us = [r.range(200, 20_000), r.range(200, 20_000)];
             let nsend = r.range(1, if tier == Tier::Thorough { 40 } else { 16 });
             let ntasks = *r.pick(&[1i64, 1, 2, 4, 8]);
+            if ntasks > 1 && r.chance(70) {
+                // sends of concurrent tasks overlap only if a send can be suspended half-way
+                p.knobs.insert("io_yield_pct".into(), *r.pick(&[10i64, 30, 60, 100]));
+            }
             let t0 = r.range(150, 600);
             for _ in 0..nsend {
                 let len = if r.chance(40) { *r.pick(&[0i64, 1, 1199, 1200, 1201, 2400, 2401, 5000]) } else { r.below(5000) as i64 };
